@@ -16,6 +16,11 @@ def run(run):
     try:
         os.makedirs(os.path.join(d, "p"))
         open(os.path.join(d, "p", "Sink.java"), "w").write(G.kitchen_sink())
+        # names shared across kinds: a field and a local named like a class, a method named like its class, a class
+        # named like a method of another class
+        open(os.path.join(d, "p", "Registry.java"), "w").write(
+            "class Registry {\n    private static final Registry Registry = new Registry();\n    int Registry() { int Holder = 1; return Holder; }\n}\n"
+            "class Holder {\n    Holder lookup;\n    void lookup() { Registry Holder = null; }\n}\nclass lookup { }\n")
         import random
         for i in range(3 if run.depth == "quick" else 12):
             g = G.Gen(random.Random(run.seed * 100 + i), G.Opts(unique=True, classes=1, methods=3, stmts=6, depth=2))
@@ -63,13 +68,18 @@ def run(run):
                 if rr.get("outcome") == "died":
                     h.call(op="scan", dir=os.path.join(d, "p"), graph="g", nonodes=True)
                 bad = rr.get("outcome") != "ok" or got != want
+                why = ""
+                # every row of a bare SELECT describes an entity of the kind that was asked for
+                if not bad and (" WHERE " not in q) and any(row and isinstance(row[0], str) and row[0].startswith("Node{") and ("Type: %s," % k) not in row[0] for row in outs):
+                    bad = True
+                    why = "; a row describes an entity of another kind"
                 # a bare `SELECT x` must render the entity, not an empty cell
                 if not bad and (" SELECT " in q and " WHERE " not in q or q.endswith("SELECT %s" % k)) and any((not row or row[0] in ("", None)) for row in outs):
                     bad = True
                 if bad:
                     run.violation("C19:kind-not-queryable:%s" % k,
-                                  "kind %s is produced by the scanner but %r gives outcome=%s results=%s (expected %d)" %
-                                  (k, q, rr.get("outcome"), got, want),
+                                  "kind %s is produced by the scanner but %r gives outcome=%s results=%s (expected %d)%s" %
+                                  (k, q, rr.get("outcome"), got, want, why),
                                   dict(java="kitchen_sink()+generated", query=q, outcome=rr.get("outcome"), got=got, want=want,
                                        panic=rr.get("panic")))
         h.close()
